@@ -401,6 +401,30 @@ func runTree(c *vf.Check, gn string, t tree, boundary bool) {
 					break
 				}
 			}
+			// simulated transcript (every branch simulated, sub-challenges not adding up to the challenge): rejected
+			// whatever the statements are
+			if nb > 1 {
+				var brs [][]SimRep
+				for _, names := range b.reps {
+					var br []SimRep
+					for _, pn := range names {
+						var terms [][2]string
+						for _, tm := range b.repTerms[pn] {
+							terms = append(terms, [2]string{sNames[tm[0]], bNames[tm[1]]})
+						}
+						br = append(br, SimRep{P: pn, Terms: terms})
+					}
+					brs = append(brs, br)
+				}
+				for variant, pts := range []map[string]kyber.Point{pv, falsePoints(w, pv)} {
+					sp, err := SimulateOr(suite, w.g, "c14-proto", brs, pts, id)
+					c.Eval(1)
+					if err == nil && verify(sp, pts, b.pred, "c14-proto") == nil {
+						x.Failf(pk+"/simulated-proof-accepted", "%s: a transcript in which every Or-branch is simulated with its own freely chosen sub-challenge is accepted (statements %s)", id, []string{"as given", "all false"}[variant])
+						break
+					}
+				}
+			}
 			// other protocol name. The protocol name enters only through the challenge c, and the verification
 			// equation V = sum r_i B_i + c P does not depend on c when the public point P is the identity (a secret
 			// is 0, or terms cancel): such a proof is valid under every name by construction, so it is not judged.
@@ -523,4 +547,17 @@ func satisfiable(w *world, ob built, branch int, pv map[string]kyber.Point) bool
 		}
 	}
 	return false
+}
+
+// falsePoints replaces every Rep result point by an unrelated point: every statement false.
+func falsePoints(w *world, pv map[string]kyber.Point) map[string]kyber.Point {
+	out := map[string]kyber.Point{}
+	for k, v := range pv {
+		if strings.HasPrefix(k, "P") {
+			out[k] = w.s.Point().Pick(alpha.Stream("c14-sim-false-" + k))
+		} else {
+			out[k] = v
+		}
+	}
+	return out
 }
